@@ -33,7 +33,7 @@ claim('C10', 'model_checking',
       'exhaustive enumeration of hostile byte streams (every single-site mutation / truncation of a traffic corpus in three connection states, handshake abuse, floods) against the real bus, with liveness, isolation, state-restoration and sanitizer oracles after every step',
       'Each hostile step is executed on an in-process bus that keeps serving a caller/callee pair and a monitor. After every step the event loop must reach quiescence within an iteration budget, a bystander round trip must succeed, '
       'any message other clients or the monitor receive from the hostile connection must be one of the VALID messages of its stream (independent splitter), an invalid message must end in EOF for its sender only, and after the hostile sockets are closed '
-      'the canonical state dump and the process descriptor count must be back at their pre-attack values. A sanitizer/assert report or a death of the bus process is a violation.',
+      'the canonical state dump and the process descriptor count must be back at their pre-attack values. A sanitizer/assert report or a death of the bus process is a violation. Scripted scenarios add stateful abuse histories ending in an abrupt close, a subscriber the bus must refuse, an authentication backlog, and 90 histories in which a client asks for a service start and closes while it is in progress (real stub processes).',
       '"Bounded time" is a bound on loop iterations plus a wall-clock watchdog. Multi-site mutations and streams of several hostile messages beyond the listed scenarios are not covered.',
       'DESIGN.md section 4 C10')
 
